@@ -1,4 +1,102 @@
-import Rngs.Model.Xoshiro
+/-
+  Rngs.Props.C02 — Hc128Rng / Hc128Core::generate produce the HC-128 keystream of Hongjun
+  Wu's specification (`Rngs.Spec.Wu`, written from the paper) for every 32-byte seed
+  (key = bytes 0..15, IV = bytes 16..31, little-endian 32-bit words) at every position.
+
+  Model: `Rngs.Hc128` (transliteration of rand_hc/src/hc128.rs).  Proof libraries:
+  `Rngs.Lib.Hc128Basic` (abstraction relation, one step), `Hc128Gen` (index table of the
+  unrolled block, `generate`, `sixteen_steps`), `Hc128Init` (key/IV expansion, set-up),
+  `Hc128Block` (composition, `BlockRng::next_u32`).
+
+  All theorems hold for every `seed : List U8`; bytes beyond the end of a short list read
+  as 0 (`byteAt`), so no length hypothesis is needed (Rust seeds have exactly 32 bytes).
+  All positions `b`, `k` are arbitrary natural numbers: in particular the statements cover
+  every alternation of the 512-step P and Q phases, every refill of the 16-word buffer,
+  every wrap of the 1024-step table cycle, and every wrap of the 64-bit `counter1024`
+  (`core_tables` gives `counter = 16 b mod 2^64`; 1024 ∣ 2^64).
+-/
+import Rngs.Lib.Hc128Block
 namespace Rngs.C02
-theorem placeholder : True := trivial
+open Rngs Rngs.Spec
+
+/-- the 128-bit key: seed bytes 0 … 15 as four little-endian words -/
+def key (seed : List U8) : Vector U32 4 :=
+  #v[le32At seed 0, le32At seed 1, le32At seed 2, le32At seed 3]
+
+/-- the 128-bit IV: seed bytes 16 … 31 as four little-endian words -/
+def iv (seed : List U8) : Vector U32 4 :=
+  #v[le32At seed 4, le32At seed 5, le32At seed 6, le32At seed 7]
+
+/-- `Hc128Core::from_seed(seed)` after `b` calls of `generate`.  (The results buffer handed
+    to `generate` has no influence on the core: `generate_core_indep`.) -/
+def coreAfter (seed : List U8) (b : Nat) : Hc128.Core :=
+  iter (fun c => (Hc128.generate c (Array.replicate 16 0)).2) b (Hc128.fromSeedCore seed)
+
+/-- `Hc128Rng::from_seed(seed)` after `k` calls of `next_u32` -/
+def rngAfter (seed : List U8) (k : Nat) : Hc128.Rng :=
+  iter (fun r => (Hc128.nextU32 r).2) k (Hc128.fromSeed seed)
+
+/-- `generate` updates the core in the same way whatever results buffer it is given. -/
+theorem generate_core_indep (c : Hc128.Core) (res res' : Array U32) :
+    (Hc128.generate c res).2 = (Hc128.generate c res').2 :=
+  Hc128R.generate_core_indep c res res'
+
+/-- Initialisation: the table built by `from_seed` is the pair of tables P, Q of the
+    specification after its initialisation process (key/IV expansion and 1024 set-up
+    steps), and the counter is 0. -/
+theorem init_tables (seed : List U8) :
+    (Hc128.fromSeedCore seed).t.size = 1024 ∧
+    (∀ j, j < 512 → rd (Hc128.fromSeedCore seed).t j = (Wu.initState (key seed) (iv seed)).P j) ∧
+    (∀ j, j < 512 →
+      rd (Hc128.fromSeedCore seed).t (512 + j) = (Wu.initState (key seed) (iv seed)).Q j) ∧
+    (Hc128.fromSeedCore seed).counter = 0 := by
+  have h := Hc128R.init_refine (le32At seed 0) (le32At seed 1) (le32At seed 2) (le32At seed 3)
+    (le32At seed 4) (le32At seed 5) (le32At seed 6) (le32At seed 7)
+  exact ⟨h.1.size, h.1.p, h.1.q, h.2⟩
+
+/-- State correspondence at every block boundary: after `b` calls of `generate` the model
+    table holds exactly the specification's P and Q before keystream step `16 b`, and the
+    counter is `16 b mod 2^64`. -/
+theorem core_tables (seed : List U8) (b : Nat) :
+    (coreAfter seed b).t.size = 1024 ∧
+    (∀ j, j < 512 → rd (coreAfter seed b).t j = (Wu.stateAt (key seed) (iv seed) (16 * b)).P j) ∧
+    (∀ j, j < 512 →
+      rd (coreAfter seed b).t (512 + j) = (Wu.stateAt (key seed) (iv seed) (16 * b)).Q j) ∧
+    (coreAfter seed b).counter = (16 * b) % 2 ^ 64 := by
+  have h := Hc128R.init_refine (le32At seed 0) (le32At seed 1) (le32At seed 2) (le32At seed 3)
+    (le32At seed 4) (le32At seed 5) (le32At seed 6) (le32At seed 7)
+  have g := Hc128R.core_inv (key seed) (iv seed) (Hc128.fromSeedCore seed) h.1 h.2 b
+  exact ⟨g.1.size, g.1.p, g.1.q, g.2⟩
+
+/-- Block form of C02: for every seed, every block number `b` and every 16-word results
+    buffer, the `b`-th call of `Hc128Core::generate` (counting from 0) fills the buffer with
+    the keystream words s_{16b}, …, s_{16b+15} of the specification. -/
+theorem generate_block (seed : List U8) (b : Nat) (res : Array U32) (hres : res.size = 16) :
+    (Hc128.generate (coreAfter seed b) res).1 =
+      Array.ofFn (n := 16) (fun k => Wu.keystream (key seed) (iv seed) (16 * b + k.val)) := by
+  have h := Hc128R.init_refine (le32At seed 0) (le32At seed 1) (le32At seed 2) (le32At seed 3)
+    (le32At seed 4) (le32At seed 5) (le32At seed 6) (le32At seed 7)
+  exact Hc128R.generate_block (key seed) (iv seed) (Hc128.fromSeedCore seed) h.1 h.2 b res hres
+
+/-- Stream form of C02: for every seed and every `k`, the `k`-th `next_u32` (counting from 0)
+    of `Hc128Rng::from_seed(seed)` is the keystream word s_k of the specification. -/
+theorem nextU32_stream (seed : List U8) (k : Nat) :
+    (Hc128.nextU32 (rngAfter seed k)).1 = Wu.keystream (key seed) (iv seed) k := by
+  have h := Hc128R.init_refine (le32At seed 0) (le32At seed 1) (le32At seed 2) (le32At seed 3)
+    (le32At seed 4) (le32At seed 5) (le32At seed 6) (le32At seed 7)
+  exact Hc128R.nextU32_stream (key seed) (iv seed) (Hc128.fromSeedCore seed) h.1 h.2 k
+
+/-- the hypothesis of `generate_block` is satisfiable (the buffer of a fresh `BlockRng`) -/
+example : (Array.replicate 16 (0 : U32)).size = 16 := by simp
+
+/-- the three 32-byte seeds of the test vectors of the paper, and their key / IV -/
+example : key (List.replicate 32 0) = #v[0, 0, 0, 0] ∧ iv (List.replicate 32 0) = #v[0, 0, 0, 0] := by
+  decide
+example : key (List.replicate 16 0 ++ 1 :: List.replicate 15 0) = #v[0, 0, 0, 0] ∧
+    iv (List.replicate 16 0 ++ 1 :: List.replicate 15 0) = #v[1, 0, 0, 0] := by
+  decide
+example : key (0x55 :: List.replicate 31 0) = #v[0x55, 0, 0, 0] ∧
+    iv (0x55 :: List.replicate 31 0) = #v[0, 0, 0, 0] := by
+  decide
+
 end Rngs.C02
